@@ -275,6 +275,57 @@ class index_to_quaternions:
                "forall(lambda k: all(result[k, c] == self._quaternions[argmax_indices[k], c] for c in range(4)), (0, argmax_indices.shape[0]))"}
 
 
+_REPLAY_MAXF = '''
+import numpy as np
+from acryo.pick._concrete import maximum_filter, find_maxima
+ok = True
+for radius in (1.0, 2.0, 2.5, 3.2):
+    r = int(np.ceil(radius))
+    img = np.zeros((24, 24, 24), np.float32)
+    c = np.array([8, 8, 8])
+    d = np.array([r, r, r])                                   # a diagonal neighbour: inside the box, outside the ball
+    img[tuple(c)] = 1.0
+    img[tuple(c + d)] = 0.9
+    out = np.asarray(maximum_filter(img, radius))
+    inside = float(np.linalg.norm(d)) <= radius
+    kept = out[tuple(c + d)] == img[tuple(c + d)]
+    n = len(find_maxima(img, radius, 0.0))
+    print("exclusion radius", radius, ": second peak at distance", round(float(np.linalg.norm(d)), 2), "is",
+          "kept" if kept else "suppressed", "| maxima found:", n)
+    ok = ok and (kept or inside) and (n == 2 or inside)
+print("clause holds natively (a weaker peak farther than the exclusion radius is not suppressed):", ok)
+print("CONFIRMED" if not ok else "NOT-CONFIRMED"); sys.exit(1 if not ok else 0)
+'''
+
+
+def _kw(call, key):
+    d = call[2]
+    return d.get(key) if isinstance(d, dict) else None
+
+
+@contract("acryo.pick._concrete:maximum_filter", props=["C20"])
+class maximum_filter_c:
+    """the exclusion region of the peak search is the ball of radius `radius` (voxels): scipy's maximum filter is
+    invoked on the image itself with the footprint {o : |o - c|^2 <= radius^2} in a (2 ceil(radius) + 1)^3 window and
+    edge replication; below one voxel the image is returned unchanged"""
+    params = dict(image=_IMG, radius=T.Real(lo=0))
+    helpers = dict(kw=_kw, ceil=V.ceil_)
+    replay = staticmethod(lambda ob, meta, model: _REPLAY_MAXF)
+    ensures = {
+        "identity_below_one_voxel": "implies(radius < 1, result is image and ndi_count() == 0)",
+        "one_filter_call_on_the_image": "implies(radius >= 1, ndi_count() == 1 and result is ndi_call('maximum_filter')[0] and "
+                                        "ndi_call('maximum_filter')[1][0] is image and kw(ndi_call('maximum_filter'), 'mode') == 'nearest')",
+        "exclusion_region_is_the_ball":
+            "implies(radius >= 1, kw(ndi_call('maximum_filter'), 'size') is None and "
+            "kw(ndi_call('maximum_filter'), 'footprint') is not None and "
+            "all(kw(ndi_call('maximum_filter'), 'footprint').shape[a] == 2 * ceil(radius) + 1 for a in range(3)) and "
+            "forall(lambda a, b, c: iff(kw(ndi_call('maximum_filter'), 'footprint')[a, b, c], "
+            "(a - ceil(radius)) * (a - ceil(radius)) + (b - ceil(radius)) * (b - ceil(radius)) + "
+            "(c - ceil(radius)) * (c - ceil(radius)) <= radius * radius), "
+            "(0, 2 * ceil(radius) + 1), (0, 2 * ceil(radius) + 1), (0, 2 * ceil(radius) + 1)))",
+    }
+
+
 @contract("acryo.pick._concrete:find_maxima", props=["C20"])
 class find_maxima:
     """one row of three coordinates per detected maximum -- also when nothing is detected (a featureless chunk of a
